@@ -181,14 +181,15 @@ Definition method_table_ok (tbl : list (N * list (str * Z * bool))) (recv : valu
 Definition modelled_list_methods : list name :=
   [n_size; n_first; n_last; n_map; n_accept; n_reduce; n_mapReduce; n_sum; n_top; n_skip; n_append;
    n_reverse; n_indexWhere; n_present; n_single; n_min; n_max; n_mean; n_minMax; n_number; n_compact;
-   n_combine; n_combine3; n_combineN; n_iir; n_iirCombine; n_cross; n_merge].
+   n_combine; n_combine3; n_combineN; n_iir; n_iirCombine; n_cross; n_merge; n_visit; n_eval; n_set].
 Definition modelled_map_methods : list name := [n_size; n_get; n_put; n_isAvail].
 
 Definition c01_tables_ok : bool :=
   static_table_ok vcfg_statics modelled_statics &&
   method_table_ok vcfg_method_info (VList []) 5 modelled_list_methods &&
   method_table_ok vcfg_method_info (VMap []) 6 modelled_map_methods &&
-  method_table_ok vcfg_method_info (VStr []) 3 [n_len; n_string] &&
+  method_table_ok vcfg_method_info (VStr []) 3 ([n_len; n_string] ++ modelled_str_methods) &&
+  method_table_ok vcfg_method_info (VClo [] (AConst (VInt 0)) [] []) 7 [n_args] &&
   method_table_ok vcfg_method_info (VInt 0) 1 [n_string] &&
   method_table_ok vcfg_method_info (VFloat fl_zero) 2 [n_string] &&
   method_table_ok vcfg_method_info (VBool true) 4 [n_string].
